@@ -1,6 +1,6 @@
 (* Non-vacuity: concrete graphs meeting the hypotheses of the C02 theorems. *)
 From V Require Import Common.Base C02.Graph C02.Order C02.SpecESM C02.Wrap C02.Resolve C02.ResolveSpec
-  C02.DataUrl C02.SpecDataUrl C02.OrderProofs C02.OrderEsmProofs C02.ResolveProofs C02.WrapProofs C02.DataUrlProofs C02.Emit C02.EmitProofs C02.ResolveChainProofs C02.ResolveDen C02.SpecDenProofs C02.StarHitsProofs C02.StarDenProofs.
+  C02.DataUrl C02.SpecDataUrl C02.OrderProofs C02.OrderEsmProofs C02.ResolveProofs C02.WrapProofs C02.DataUrlProofs C02.Emit C02.EmitProofs C02.ResolveChainProofs C02.ResolveDen C02.SpecDenProofs C02.StarHitsProofs C02.StarDenProofs C02.LinkDenProofs C02.ResolveStarsProofs.
 
 (* diamond with a back edge: 1 -> 2,3 ; 2 -> 4 ; 3 -> 4 ; 4 -> 1 (cycle); file 0 is the runtime *)
 Definition ex_graph : graph :=
@@ -150,3 +150,17 @@ Example ex_toesm : to_esm_default (to_esm_node_mode true IFDynamic) true = Modul
   /\ to_esm_default (to_esm_node_mode false IFDynamic) true = ExportsDefault
   /\ to_esm_default (to_esm_node_mode false IFDynamic) false = ModuleExports.
 Proof. repeat split. Qed.
+
+(* resolve_is_spec_partial: ex_den plus an importer of x, y and a missing name z from file 1
+   (diamond of export stars, a conflict, an indirect export below a star) is in scope *)
+Definition ex_stars : graph :=
+  ex_den ++ [esm_mod [rec_to 1; rec_to 1; rec_to 1] [imp 20 1 0; imp 21 2 1; imp 22 3 2] [] [] false].
+Definition ex_stars_rank : list nat := [0; 3; 2; 2; 1; 4]%nat.
+Example ex_stars_scope : star_scope ex_stars ex_stars_rank = true.
+Proof. vm_compute. reflexivity. Qed.
+Example ex_stars_verdicts :
+  map (link_verdict ex_stars (seq 0 6) 5) (m_imports (getm ex_stars 5))
+  = [Some (VFound 4 0); Some VAmbiguous; Some VNull]
+  /\ map (spec_verdict ex_stars 5) (m_imports (getm ex_stars 5))
+  = [Some (VFound 4 0); Some VAmbiguous; Some VNull].
+Proof. vm_compute. split; reflexivity. Qed.
